@@ -31,6 +31,7 @@ func vfSameObj(a, b []byte) bool
 func vfOffsetIn(sub, whole []byte) int
 func vfAllocLimit(n int)
 func vfAllocMax() int
+func vfAllocExplore(n int)
 func vfModelBug(id string)
 func vfPoolMode(mode int)
 func vfStrBytes(s string) []byte
@@ -154,6 +155,7 @@ func vfAllocLimit(n int) {
 	vfAllocLim, vfAllocBase = n, ms.TotalAlloc
 }
 func vfAllocMax() int { return 0 }
+func vfAllocExplore(n int) {}
 func vfAllocCheck() {
 	if vfAllocLim > 0 {
 		var ms runtime.MemStats
